@@ -233,8 +233,25 @@ def check_template(tpl):
                         oa = idx is not None and idx in orc.ends(pattern, L, 0) and (n1 > 0 or True)
                         confirmed = (ra and not oa) if direction == "J-S" else (oa and not ra)
                         obligation("AEM", direction, "sat", envtag.strip() or None, stream=stream, extent=n1, real_admits=ra, oracle_admits=oa, confirmed=confirmed)
+                        if not confirmed:
+                            # the encoding of the COMPILED regex misrepresents it (e.g. a capture group the template does not
+                            # expect shifted the numbering): let the solver pick a member of the REFERENCE language under this
+                            # binding and run the real engine on it (bug hunting; only a confirmed disagreement is reported)
+                            v3, w3 = q.check(inter(WF12, SM))
+                            if v3 == "sat":
+                                st3, n3 = split_coloured(M, w3)
+                                ra3 = real_admits(regex_text, st3, n3)
+                                idx3 = record_index(st3, n3)
+                                oa3 = idx3 is not None and idx3 in orc.ends(pattern, jasmapi.decode_stream(st3), 0)
+                                if oa3 and not ra3:
+                                    obligation("AEM", "S-J", "sat", "reference-side witness (the encoding of the compiled regex did not reproduce)" + envtag, stream=st3, extent=n3, real_admits=ra3, oracle_admits=oa3, confirmed=True)
                     else:
                         obligation("AEM", direction, v, w if v == "unknown" else (envtag.strip() or None))
+            if "AEM" in lem and env is not None and not res.get("spec_nonempty"):
+                # vacuity guard for capture templates: under at least one binding the reference language must be non-empty
+                vne, _ = q.check(inter(WF12, SM))
+                if vne == "sat":
+                    res["spec_nonempty"] = True
             if "EA" in lem:
                 notbar = M.chars([c for c in M.alphabet if c != ord("|")], (1,))
                 v, w = q.check(inter(WF12, LM, z3.Concat(z3.Star(S1), notbar, K2)))
@@ -379,6 +396,8 @@ def check_template(tpl):
                     pass
         except Exception as e:
             obligation("ENCODE", "-", "error", traceback.format_exc(limit=4))
+    if env_dom and "AEM" in lem and not res.get("spec_nonempty") and not res["error"] and not any(o["lemma"] == "ENCODE" for o in res["obl"]):
+        obligation("ENCODE", "-", "error", "vacuous template: the reference language is empty under every binding of the capture domain")
     res["solver_s"] = q.wall
     res["queries"] = q.n
     res["tally"] = q.tally
@@ -664,12 +683,12 @@ for k in seq:
         if not os.path.exists(mp) or open(mp).read() != text:
             open(mp, "w").write(text)          # a library file is only rewritten when its content really changes
         paths.append(mp)
+    y = None
     try:
         y = Yaml2Regex(p, macros_from_terminal=paths or None)
         out.append(y.produce_regex())
     except Exception as e:
         out.append("EXC " + type(e).__name__)
-        y = None
     if len(seq) == 1:
         # the same rule object compiled a second time (repeating an operation gives the same result)
         try:
